@@ -991,7 +991,7 @@ func criterionLiteralRule(r *Report, p *Prog, rule string) {
 		for _, b := range f.Blocks {
 			for _, in := range b.Instrs {
 				al, ok := in.(*ssa.Alloc)
-				if !ok || al.Comment != "complit" {
+				if !ok {
 					continue
 				}
 				st, ok := al.Type().Underlying().(*types.Pointer).Elem().Underlying().(*types.Struct)
@@ -999,8 +999,12 @@ func criterionLiteralRule(r *Report, p *Prog, rule string) {
 					continue
 				}
 				set := map[int]bool{}
+				whole := false
 				if al.Referrers() != nil {
 					for _, rf := range *al.Referrers() {
+						if s, ok := rf.(*ssa.Store); ok && s.Addr == al {
+							whole = true // the variable receives a complete value (copy(), a call result)
+						}
 						if fa, ok := rf.(*ssa.FieldAddr); ok && fa.Referrers() != nil {
 							for _, u := range *fa.Referrers() {
 								if s, ok := u.(*ssa.Store); ok && s.Addr == fa {
@@ -1010,8 +1014,8 @@ func criterionLiteralRule(r *Report, p *Prog, rule string) {
 						}
 					}
 				}
-				if len(set) == 0 {
-					continue // the zero criterion of an error return
+				if len(set) == 0 || whole {
+					continue // the zero criterion of an error return, or a variable holding a complete value that is then adjusted
 				}
 				n++
 				perFn++
